@@ -6,3 +6,5 @@ EXPLANATION = ("Function contracts on the real tf_pwa kinematics code (angle.py,
 ASSUMPTIONS = []
 
 from vt.contracts import angle  # noqa: F401,E402
+from vt.contracts import dalitz  # noqa: F401,E402
+from vt.contracts import euler  # noqa: F401,E402
